@@ -42,6 +42,12 @@ type Cfg struct {
 	RestartFirst bool `json:"restartFirst"`
 	// CaseVar: the recipients differ only by the letter case of the local part
 	CaseVar bool `json:"caseVar"`
+	// MidData (variant (b)): 8 MiB body, a scripted unclassified body failure resets the connection mid-transfer
+	MidData bool `json:"midData"`
+	// UniLocal: non-ASCII local parts (only with Utf8)
+	UniLocal bool `json:"uniLocal"`
+	// ErrShape: "", "421", "nested" (scripted.ErrShape); variant (b): "421" = the hop answers temporary failures with 421
+	ErrShape string `json:"errshape"`
 	// Sts (variant (b), remote): "wild" = wildcard MTA-STS policy and an A-label MX host,
 	// "nil" = the policy cache returns neither a policy nor an error
 	Sts string `json:"sts"`
@@ -118,9 +124,18 @@ var useIdn bool // set per behaviour (behaviours run sequentially in a process)
 var caseVar bool
 var caseLocals = map[string]string{"r1": "rcpt", "r2": "Rcpt", "r3": "RCPT"}
 
+// uniLocal: the recipients' local parts are not ASCII (SMTPUTF8 messages only)
+var uniLocal bool
+var uniLocals = map[string]string{"r1": "\u0442\u0435\u0441\u04421", "r2": "\u0442\u0435\u0441\u04422", "r3": "\u00fcser3"}
+
 func local(id string) string {
 	if caseVar {
 		if l, ok := caseLocals[id]; ok {
+			return l
+		}
+	}
+	if uniLocal {
+		if l, ok := uniLocals[id]; ok {
 			return l
 		}
 	}
@@ -130,6 +145,13 @@ func local(id string) string {
 func unlocal(l string) string {
 	if caseVar {
 		for id, v := range caseLocals {
+			if v == l {
+				return id
+			}
+		}
+	}
+	if uniLocal {
+		for id, v := range uniLocals {
 			if v == l {
 				return id
 			}
@@ -202,7 +224,9 @@ func runBehaviour(t *testing.T, b Behaviour, w *bufio.Writer) {
 	default:
 		scripted.MsgSuffix = ""
 	}
-	defer func() { scripted.MsgSuffix = ""; useIdn = false; caseVar = false }()
+	scripted.ErrShape = b.Cfg.ErrShape
+	uniLocal = b.Cfg.UniLocal && b.Cfg.Utf8
+	defer func() { scripted.MsgSuffix = ""; scripted.ErrShape = ""; useIdn = false; caseVar = false; uniLocal = false }()
 	synctest.Test(t, func(t *testing.T) {
 		tr := vtrace.New(w, b.ID)
 		rw := map[string]bool{}
